@@ -60,7 +60,8 @@ TOKENS = [
     ("flag", "fmtdiff", ["--output-format", "diff"]),      # accepted choices that change nothing about the status
     ("flag", "nodry", ["--no-dry-run"]),
     ("flag", "verbose", ["--verbose"]),
-    ("flag", "contrast", ["--contrast-vulnerabilities-xml", "{res}/contrast.xml"]),
+    ("contrast", "ok", ["--contrast-vulnerabilities-xml", "{res}/contrast.xml"]),
+    ("contrast", "missing", ["--contrast-vulnerabilities-xml", "{res}/missing-contrast.xml"]),
 ]
 # a missing operand can only be modelled as "error when met" at the very end of argv
 LAST_ONLY = [("bad", "noperand", ["--project-name"]), ("bad", "noperand2", ["--output"])]
@@ -88,6 +89,9 @@ ENVS = {
         {"CODEMODDER_AZURE_OPENAI_ENDPOINT": "https://example.invalid"},
         {"CODEMODDER_AZURE_LLAMA_API_KEY": "k"},
         {"CODEMODDER_AZURE_LLAMA_ENDPOINT": "https://example.invalid"},
+        # the other half exported but empty: still half a configuration
+        {"CODEMODDER_AZURE_OPENAI_API_KEY": "k", "CODEMODDER_AZURE_OPENAI_ENDPOINT": ""},
+        {"CODEMODDER_AZURE_LLAMA_API_KEY": "", "CODEMODDER_AZURE_LLAMA_ENDPOINT": "https://example.invalid"},
     ],
     # consistent configurations: only the Azure Llama pair can be exercised here - the installed openai client
     # cannot be constructed in this sandbox (httpx incompatibility: "unexpected keyword argument 'proxies'")
@@ -142,7 +146,7 @@ def run(chk: Check) -> None:
         "ExtraSeqs": extra,
         "EnvSeqs": env_seqs,
         "DirTok": 1,
-        "Interesting": {i + 1 for i, t in enumerate(TOKENS) if t[0] in ("output", "sarif", "sonar", "hotspots", "dojo", "unser")},
+        "Interesting": {i + 1 for i, t in enumerate(TOKENS) if t[0] in ("output", "sarif", "sonar", "hotspots", "dojo", "unser", "contrast")},
     }
     # MaxLen-enumeration must not place the last-only tokens mid-sequence: restrict the enumerated pool
     data["Tokens"] = [{"k": t[0], "v": t[1]} for t in pool]
